@@ -1044,10 +1044,26 @@ func checkWarnings(p *Program, r *Report, pk *ssa.Package, runner *ssa.Function)
 		// blocks that allocate the array from this series' length
 		alloc := map[*ssa.BasicBlock]bool{}
 		for _, c2 := range callsIn(fn) {
+			a2 := c2.Common().Args
 			if strings.HasPrefix(callName(c2.Common()), "NewArray") {
-				a2 := c2.Common().Args
 				if len(a2) > 0 && isLenOfSeries(a2[len(a2)-1]) {
 					alloc[c2.Block()] = true
+				}
+				continue
+			}
+			// a helper of the module that makes the array: it passes one of its parameters on as the time extent of a
+			// NewArray… call, and that parameter is given this series' length
+			if h := c2.Common().StaticCallee(); h != nil && h.Blocks != nil && InModule(h) {
+				for _, c3 := range callsIn(h) {
+					a3 := c3.Common().Args
+					if !strings.HasPrefix(callName(c3.Common()), "NewArray") || len(a3) == 0 {
+						continue
+					}
+					for j, prm := range h.Params {
+						if origin1(a3[len(a3)-1]) == ssa.Value(prm) && j < len(a2) && isLenOfSeries(a2[j]) {
+							alloc[c2.Block()] = true
+						}
+					}
 				}
 			}
 		}
@@ -1135,6 +1151,78 @@ func checkWarnings(p *Program, r *Report, pk *ssa.Package, runner *ssa.Function)
 		if nDec == 0 {
 			r.Undecided("R17.10", FuncKey(runner)+":decoder-source", p.Pos(runner.Pos()), "no json.NewDecoder call found in the runner")
 		}
+	}
+
+	// R17.11: a request is answered from the request alone
+	{
+		r.Rule("R17.11", "the runner keeps nothing between requests: no function of the module reachable from RunSingleModelJSON writes a package-level variable (a store, a map update, its address handed to a callee) or reads one that is written outside package initialisation — a buffer or cache kept at package level makes an answer depend on the requests served before (a missing input would read a previous request's values instead of zero)")
+		written := map[*ssa.Global]ssa.Instruction{}
+		for _, fn := range p.SrcFuncs() {
+			if isInitFunc(fn) {
+				continue
+			}
+			eachInstr(fn, func(_ *ssa.BasicBlock, _ int, ins ssa.Instruction) {
+				switch x := ins.(type) {
+				case *ssa.Store:
+					if g := globalOf(x.Addr); g != nil && written[g] == nil {
+						written[g] = ins
+					}
+				case *ssa.MapUpdate:
+					if g := globalOf(x.Map); g != nil && written[g] == nil {
+						written[g] = ins
+					}
+				case ssa.CallInstruction:
+					ws, _ := globalAddrArgs(x)
+					for _, g := range ws {
+						if written[g] == nil {
+							written[g] = ins
+						}
+					}
+				}
+			})
+		}
+		reach := moduleReach(p, []*ssa.Function{runner})
+		var fns []*ssa.Function
+		for fn := range reach {
+			if InModule(fn) && fn.Blocks != nil && !isInitFunc(fn) {
+				fns = append(fns, fn)
+			}
+		}
+		sortFuncs(fns)
+		nBad := 0
+		seenKey := map[string]bool{}
+		for _, w := range globalWritesFrom(p, []*ssa.Function{runner}) {
+			k := fmt.Sprintf("%s:writes:%s", FuncKey(w.fn), w.g.Name())
+			if seenKey[k] {
+				continue
+			}
+			seenKey[k] = true
+			nBad++
+			r.Fail("R17.11", k, p.Pos(w.site.Pos()), fmt.Sprintf("package-level variable %s is written by %s while a request is served: the next request in the same process starts from what this one left there", w.g.Name(), FuncKey(w.fn)))
+		}
+		for _, fn := range fns {
+			eachInstr(fn, func(_ *ssa.BasicBlock, _ int, ins ssa.Instruction) {
+				u, ok := ins.(*ssa.UnOp)
+				if !ok || u.Op != token.MUL {
+					return
+				}
+				g := globalOf(u.X)
+				if g == nil || !InModuleGlobal(g) || written[g] == nil {
+					return
+				}
+				k := fmt.Sprintf("%s:reads:%s", FuncKey(fn), g.Name())
+				if seenKey[k] {
+					return
+				}
+				seenKey[k] = true
+				nBad++
+				r.Fail("R17.11", k, p.Pos(u.Pos()), fmt.Sprintf("package-level variable %s is read while a request is served and written outside package initialisation (at %s): the answer depends on earlier requests", g.Name(), p.Pos(written[g].Pos())))
+			})
+		}
+		if nBad == 0 {
+			r.OK("R17.11", fmt.Sprintf("%d module functions reachable from the runner: no package-level variable written, none read that is written outside initialisation", len(fns)))
+		}
+		r.Floor("R17.11", "functions reachable from the runner", len(fns), 20)
 	}
 
 	// R17.8: the conversion to the result tree is read-only on the arrays it converts
